@@ -6,6 +6,7 @@ import (
 	"fmt"
 	"go/constant"
 	"go/token"
+	"regexp"
 	"regexp/syntax"
 	"sort"
 	"strings"
@@ -97,6 +98,7 @@ func runC05(c *Ctx) {
 	c.Rule("C05.R3", "WIRE", "stored shortcut = ToLower(piece of the rule's pattern); pre-check tests the lower-cased URL", 3)
 	c.Rule("C05.R4", "TBL", "regex heuristic: '?' bail-out; splitter class contains every RE2 metacharacter", 2)
 	c.Rule("C05.R5", "TBL", "regex heuristic: bracket-stripping expressions are greedy", 3)
+	c.Rule("C05.R8", "TBL", "regex heuristic: escapes, alternation and zero repetitions never leave an optional literal among the candidate pieces (sample table over the constants)", 10)
 	c.Rule("C05.R7", "WIRE", "regex heuristic: a placeholder is prepended for the strippers that consume the preceding character", 1)
 
 	a := &anchors{c: c, rule: "C05.R1"}
@@ -648,7 +650,187 @@ func runC05(c *Ctx) {
 			}
 			c.Check(bad == "", "C05.R7", shortFn(regexX)+": strippers that consume the character before the bracket are applied to placeholder+text", regexX.Pos(), fmt.Sprintf("%d stripper applications; innermost text = constant of splitter characters + expression", n), bad)
 		}
+		// ---------- R8: the operators that make a literal optional are neutralised ----------
+		// The pipeline of the heuristic is a chain of constants: bail-out tests on constant strings,
+		// ReplaceAllString with constant expressions and templates, a constant splitter.  The chain is
+		// read off the evaluated function and interpreted inside the checker (Go's regexp on the
+		// constant texts) on a table of sample expressions, one per operator of the property's
+		// grammar; every candidate piece must be contained in every witness URL the sample accepts.
+		checkRegexHeuristicTable(c, g, s, regexX)
 		c.Extra["regex_constants_used"] = names
 		_ = nStrip
+	}
+}
+
+// regexSample is one row of the C05.R8 table: the body of a regular-expression rule (between the
+// slashes) and URLs it accepts.  Every piece the heuristic could pick must occur in all of them.
+type regexSample struct {
+	body      string
+	witnesses []string
+	what      string
+}
+
+var regexSamples = []regexSample{
+	{`qqqq\dzzzz`, []string{"qqqq5zzzz"}, "class escape \\d: the letter of the escape is not literal text"},
+	{`qqqq\wzzzz`, []string{"qqqq_zzzz"}, "class escape \\w"},
+	{`qqqq\.zzzz`, []string{"qqqq.zzzz"}, "escaped metacharacter"},
+	{`qqqq|zzzz`, []string{"qqqq", "zzzz"}, "alternation outside any group: no piece is common to both branches"},
+	{`qqqq(aaaa|bbbb)zzzz`, []string{"qqqqaaaazzzz", "qqqqbbbbzzzz"}, "alternation inside a group"},
+	{`(qqqq|zzzz)xxxx`, []string{"qqqqxxxx", "zzzzxxxx"}, "group at the very start"},
+	{`qqqq[ab]zzzz`, []string{"qqqqazzzz"}, "character class"},
+	{`qqqqx*zzzz`, []string{"qqqqzzzz"}, "x* may repeat zero times: the x is not mandatory"},
+	{`qqqq(xx)*zzzz`, []string{"qqqqzzzz"}, "group repeated zero times"},
+	{`qqqqx+zzzz`, []string{"qqqqxzzzz"}, "x+ repeats at least once"},
+	{`qqqqx{2,3}zzzz`, []string{"qqqqxxzzzz"}, "counted repetition with a positive minimum"},
+	{`qqqqx{0,2}zzzz`, []string{"qqqqzzzz"}, "x{0,n} may repeat zero times: the x is not mandatory"},
+	{`qqqqx?zzzz`, []string{"qqqqzzzz"}, "optional character"},
+}
+
+func checkRegexHeuristicTable(c *Ctx, g *Gate, s *Summary, regexX *ssa.Function) {
+	u := g.U
+	isRepl := func(x *E) bool {
+		return x.Op == "call" && (x.Aux == "(*regexp.Regexp).ReplaceAllString" || x.Aux == "(*regexp.Regexp).ReplaceAllLiteralString") && len(x.Args) >= 3
+	}
+	constRe := func(e *E) (string, bool) {
+		if e.Op == "call" && e.Aux == "regexp.MustCompile" && len(e.Args) >= 1 {
+			if sv, ok := e.Args[0].StrVal(); ok {
+				return sv, true
+			}
+			if q := e.Args[0]; q.Op == "call" && q.Aux == "regexp.QuoteMeta" && len(q.Args) == 1 {
+				if sv, ok := q.Args[0].StrVal(); ok {
+					return quoteMeta(sv), true
+				}
+			}
+		}
+		return "", false
+	}
+	// the split
+	var split *E
+	var roots []*E
+	for _, r := range s.Rets {
+		roots = append(roots, u.AtomsOf(r.Cond)...)
+		roots = append(roots, r.Vals...)
+	}
+	for _, r := range roots {
+		for _, x := range u.Collect(r, func(x *E) bool { return x.Op == "call" && x.Aux == "(*regexp.Regexp).Split" && len(x.Args) >= 2 }) {
+			split = x
+		}
+	}
+	if split == nil {
+		c.Fail("C05.R8", shortFn(regexX)+": pipeline", regexX.Pos(), "UNDECIDED: the candidate pieces are not produced by (*regexp.Regexp).Split on a constant expression")
+		return
+	}
+	splitPat, okS := constRe(split.Args[0])
+	type stage struct {
+		pat, repl string
+		literal   bool
+		text      *E // the text this stage produces
+	}
+	var stages []stage
+	t := split.Args[1]
+	okChain := okS
+	for isRepl(t) {
+		pat, ok1 := constRe(t.Args[0])
+		repl, ok2 := t.Args[2].StrVal()
+		if !ok1 || !ok2 {
+			okChain = false
+			break
+		}
+		stages = append([]stage{{pat, repl, strings.HasSuffix(t.Aux, "LiteralString"), t}}, stages...)
+		t = t.Args[1]
+	}
+	head := ""
+	body := t
+	if t.Op == "bin" && t.Aux == "+" {
+		if h, ok := t.Args[0].StrVal(); ok {
+			head, body = h, t.Args[1]
+		}
+	}
+	if !okChain {
+		c.Fail("C05.R8", shortFn(regexX)+": pipeline", regexX.Pos(), "UNDECIDED: a stage of the heuristic does not use a constant expression / template")
+		return
+	}
+	// bail-outs: return "" under strings.Contains(<text of some stage>, <constant>)
+	type bail struct {
+		text *E
+		k    string
+	}
+	var bails []bail
+	for _, r := range s.Rets {
+		if sv, ok := r.Vals[0].StrVal(); !ok || sv != "" {
+			continue
+		}
+		for _, at := range u.AtomsOf(r.Cond) {
+			if at.Op == "call" && (at.Aux == "strings.Contains" || at.Aux == "strings.ContainsAny") && len(at.Args) == 2 && u.bdd.Implies(r.Cond, u.Atom(at)) {
+				if k, ok := at.Args[1].StrVal(); ok {
+					bails = append(bails, bail{at.Args[0], k})
+				}
+			}
+		}
+	}
+	bailsAt := func(text *E, val string) bool {
+		for _, b := range bails {
+			if b.text != text {
+				continue
+			}
+			if strings.Contains(val, b.k) {
+				return true
+			}
+		}
+		return false
+	}
+	splitRe, err := regexp.Compile(splitPat)
+	if err != nil {
+		c.Fail("C05.R8", shortFn(regexX)+": pipeline", regexX.Pos(), "UNDECIDED: the splitter does not compile: "+err.Error())
+		return
+	}
+	for _, sm := range regexSamples {
+		key := shortFn(regexX) + ": sample /" + sm.body + "/"
+		val := sm.body
+		bad := ""
+		out := ""
+		if bailsAt(body, val) {
+			out = "no shortcut (bail-out)"
+		} else {
+			val = head + val
+			bailed := bailsAt(t, val)
+			for _, st := range stages {
+				if bailed {
+					break
+				}
+				re, err := regexp.Compile(st.pat)
+				if err != nil {
+					bad = "UNDECIDED: " + err.Error()
+					break
+				}
+				if st.literal {
+					val = re.ReplaceAllLiteralString(val, st.repl)
+				} else {
+					val = re.ReplaceAllString(val, st.repl)
+				}
+				if bailsAt(st.text, val) {
+					bailed = true
+				}
+			}
+			if bailed {
+				out = "no shortcut (bail-out)"
+			} else if bad == "" {
+				var cands []string
+				for _, part := range splitRe.Split(val, -1) {
+					if part == "" {
+						continue
+					}
+					cands = append(cands, part)
+					for _, w := range sm.witnesses {
+						if !strings.Contains(strings.ToLower(w), strings.ToLower(part)) && bad == "" {
+							bad = fmt.Sprintf("the piece %q can become the shortcut of /%s/, but the expression accepts %q, which does not contain it: the rule silently never fires on such URLs (%s)", part, sm.body, w, sm.what)
+						}
+					}
+				}
+				out = fmt.Sprintf("candidate pieces %q", cands)
+			}
+		}
+		c.Paths++
+		c.Check(bad == "", "C05.R8", key, regexX.Pos(), out+", each contained in "+fmt.Sprintf("%q", sm.witnesses), bad)
 	}
 }
